@@ -7,7 +7,6 @@ From CB Require Import Trie.Radix Trie.PrefixMap Trie.Locks Trie.InstanceState T
 Import ListNotations.
 Local Open Scope N_scope.
 
-Ltac Zify.zify_post_hook ::= Z.div_mod_to_equations.
 
 (** ** shifts and ors are sums here *)
 Lemma lor_disjoint a b k : b < 2 ^ k -> N.lor (N.shiftl a k) b = a * 2 ^ k + b.
@@ -56,11 +55,34 @@ Proof.
     + rewrite lor_tag by exact Hle. reflexivity.
     + rewrite N.lor_0_r. reflexivity.
   - intros E; inversion E; subst. rewrite N.shiftl_mul_pow2. reflexivity.
-  - destruct k; try (intros E; inversion E; subst; clear E; vm_compute; reflexivity).
+  - destruct k as [code d| | | | | | | | | | |]; [|intros E; inversion E; subst; clear E; vm_compute; reflexivity ..].
     destruct (N.ltb_spec MAX_PARAM_INDEX (N.of_nat (length params))) as [|Hle]; [discriminate|].
     intros E; inversion E; subst; clear E.
     rewrite lor_disjoint; [reflexivity|]. change (2 ^ 40) with 1099511627776.
     pose proof (code_u32_bound code). lia.
+Qed.
+
+(** ** arithmetic of the three fields *)
+Lemma hi_mod_low a : (a * 1099511627776) mod 4294967296 = 0.
+Proof. replace (a * 1099511627776) with (a * 256 * 4294967296) by lia. apply N.mod_mul. lia. Qed.
+Lemma hi_mid a : (a * 1099511627776 / 4294967296) mod 256 = 0.
+Proof.
+  replace (a * 1099511627776) with (a * 256 * 4294967296) by lia. rewrite N.div_mul by lia. apply N.mod_mul. lia.
+Qed.
+Lemma hi_hi a : a * 1099511627776 / 1099511627776 = a.
+Proof. apply N.div_mul. lia. Qed.
+Lemma rej_low a c : c < 4294967296 -> (a * 1099511627776 + c) mod 4294967296 = c.
+Proof.
+  intros H. replace (a * 1099511627776 + c) with (c + a * 256 * 4294967296) by lia.
+  rewrite N.mod_add by lia. apply N.mod_small. exact H.
+Qed.
+Lemma rej_hi a c : c < 4294967296 -> (a * 1099511627776 + c) / 1099511627776 = a.
+Proof.
+  intros H. rewrite N.div_add_l by lia. rewrite N.div_small by lia. lia.
+Qed.
+Lemma tag_mod len : len < 8388608 -> (8388608 + len) mod 8388608 = len.
+Proof.
+  intros H. replace (8388608 + len) with (len + 1 * 8388608) by lia. rewrite N.mod_add by lia. apply N.mod_small. exact H.
 Qed.
 
 (** ** the word determines everything a contract can learn from it *)
@@ -78,26 +100,20 @@ Proof.
   destruct r as [bal [d|]|k].
   - destruct (N.ltb_spec MAX_PARAM_INDEX (N.of_nat (length params))) as [|Hle]; [discriminate|].
     unfold MAX_PARAM_INDEX in Hle. set (len := N.of_nat (length params)) in *.
+    rewrite hi_mod_low, hi_mid, hi_hi. cbn [N.eqb negb].
     destruct su; unfold UPDATED_TAG.
-    + replace (((8388608 + len) * 1099511627776) mod 4294967296) with 0 by lia.
-      replace (((8388608 + len) * 1099511627776 / 4294967296) mod 256) with 0 by lia.
-      replace ((8388608 + len) * 1099511627776 / 1099511627776) with (8388608 + len) by lia.
-      cbn [N.eqb negb]. replace ((8388608 + len) mod 8388608) with len by lia.
+    + rewrite tag_mod by lia.
       destruct (N.leb_spec 8388608 (8388608 + len)); [|lia].
       destruct (N.eqb_spec len 0); [lia|]. reflexivity.
-    + replace (((0 + len) * 1099511627776) mod 4294967296) with 0 by lia.
-      replace (((0 + len) * 1099511627776 / 4294967296) mod 256) with 0 by lia.
-      replace ((0 + len) * 1099511627776 / 1099511627776) with len by lia.
-      cbn [N.eqb negb]. replace (len mod 8388608) with len by lia.
+    + rewrite N.add_0_l. rewrite (N.mod_small len 8388608) by lia.
       destruct (N.leb_spec 8388608 len); [lia|].
       destruct (N.eqb_spec len 0); [lia|]. reflexivity.
   - destruct su; unfold UPDATED_TAG; vm_compute; reflexivity.
-  - destruct k; try (vm_compute; reflexivity).
+  - destruct k as [code d| | | | | | | | | | |]; [|vm_compute; reflexivity ..].
     destruct (N.ltb_spec MAX_PARAM_INDEX (N.of_nat (length params))) as [|Hle]; [discriminate|].
     unfold MAX_PARAM_INDEX in Hle. set (len := N.of_nat (length params)) in *.
     cbn [reject_code_nonzero] in Hc. pose proof (code_u32_bound code) as Hb. set (c := code_u32 code) in *.
-    replace ((len * 1099511627776 + c) mod 4294967296) with c by lia.
-    replace ((len * 1099511627776 + c) / 1099511627776) with len by lia.
+    rewrite rej_low, rej_hi by exact Hb.
     destruct (N.eqb_spec c 0); [contradiction|]. reflexivity.
 Qed.
 
